@@ -71,7 +71,9 @@ def lexItems (fixedEOF : Bool) : Nat → Bytes → Nat → Nat → Option (List 
         | some i => lexItems fixedEOF f (r.drop (1 + i + 2)) (pos + 2 + i + 2) depth
       else if c = 47 && r.head? = some 47 then
         match find1 10 (r.drop 1) with
-        | none => some [⟨.error, pos, msg "unclosed comment"⟩]
+        | none =>
+          -- (after the repair) the comment ends with the text: the last line need not end in a line break
+          lexItems fixedEOF f [] (pos + 2 + (r.drop 1).length) depth
         | some i => lexItems fixedEOF f (r.drop (1 + i + 1)) (pos + 2 + i + 1) depth
       else if isSep c then
         let run := r.takeWhile isSep
